@@ -179,6 +179,38 @@ def run_one(sh, case, driver='generated'):
     sh.case_done(case, nt, sample=sample)
 
 
+def run_epoch_df_direct(sh, case, driver='epoch_df_direct'):
+    """epoch_df on a flattened table with an epoch length that need not divide the signal length."""
+    from bycycle.features import compute_features
+    from bycycle.utils.dataframes import epoch_df
+    sig = np.asarray(case['sig'])
+    E = int(case['epoch_len'])
+    try:
+        with quiet():
+            df = compute_features(np.array(sig, copy=True), case['fs'], tuple(case['f_range']), center_extrema=case['center'],
+                                  threshold_kwargs={'min_n_cycles': 2})
+    except Exception:
+        sh.case_done(case, False)
+        return
+    vs = []
+    try:
+        with quiet():
+            dfs = epoch_df(df.copy(), len(sig), E)
+        attach.count('eval:epoch_df')
+        r = check_partition(df, dfs, len(sig), E, 'epoch_df(direct)')
+        if r[0] is not None:
+            vs.append({'mechanism': 'partition-' + r[0], 'message': r[1] + ' (signal length %d, epoch length %d)' % (len(sig), E)})
+        else:
+            sh.note('epoch_df_direct:%s' % ('divides' if len(sig) % E == 0 else 'partial_last_epoch'))
+            sh.note('empty_epochs', r[1]['empty_epochs'])
+            sh.note('boundary_coincidences', r[1]['boundary_coincidences'])
+    except Exception as e:
+        vs.append({'mechanism': attach.exc_mechanism(e), 'message': 'epoch_df raised %r (signal length %d, epoch length %d)' % (e, len(sig), E)})
+    for v in vs:
+        sh.violate(case, v, driver)
+    sh.case_done(case, len(df) >= 4, sample={'n': len(sig), 'epoch_len': E, 'fs': case['fs'], 'center': case['center']})
+
+
 def make_case(rng):
     fs, lo, hi = gen.gen_config(rng, small=True)
     f0 = rng.uniform(lo + .2 * (hi - lo), hi - .2 * (hi - lo))
@@ -246,7 +278,21 @@ def run(sh):
         c = make_case(rng)
         if c['sigs'].shape[0] >= 2:
             run_one(sh, c)
+        if it % 3 == 0:
+            fs, lo, hi = gen.gen_config(rng, small=True)
+            sig, fam = gen.gen_signal(rng, fs, lo, hi, rng.uniform(2.0, 5.0))
+            per = fs / (0.5 * (lo + hi))
+            E = max(5, int(per * rng.choice([0.6, 1.0, 1.7, 3.3, 6.1])))
+            if rng.random() < 0.3:
+                with quiet():
+                    b = gen.boundary_on_extremum(rng, sig, fs, (lo, hi))          # epoch boundary exactly on an extremum
+                if b is not None and b >= 5:
+                    E = b
+            run_epoch_df_direct(sh, {'sig': sig, 'fs': fs, 'f_range': (lo, hi), 'center': str(rng.choice(['peak', 'trough'])), 'epoch_len': E})
 
 
 def replay(sh, driver, case):
-    run_one(sh, case, driver)
+    if driver == 'epoch_df_direct':
+        run_epoch_df_direct(sh, case, driver)
+    else:
+        run_one(sh, case, driver)
